@@ -22,6 +22,8 @@ pub struct Config {
     pub cases_per_worker: u32,
     pub excl: Exclusions,
     pub pool_digest: String,
+    /// continue (for a few steps) after an observer oracle of another property fired
+    pub mute: bool,
 }
 
 #[derive(Clone, Debug, Serialize, Deserialize)]
@@ -86,11 +88,17 @@ static CASE_COUNTER: std::sync::atomic::AtomicU64 = std::sync::atomic::AtomicU64
 
 /// Execute one history against registry `R` with the oracles of property `prop` deciding.
 pub fn run_case<R: Reg>(ops: &[Op], prop: &str, excl: &Exclusions, slot: usize) -> CaseOutcome {
+    run_case_opts::<R>(ops, prop, excl, slot, true)
+}
+
+pub fn run_case_opts<R: Reg>(ops: &[Op], prop: &str, excl: &Exclusions, slot: usize, mute: bool) -> CaseOutcome {
     let n = CASE_COUNTER.fetch_add(1, Ordering::Relaxed);
     ledger::reset((n % 1000 + 1) * 1_000_000);
     talloc::begin_case(slot);
     set_quiet(true);
     let mut interp = Interp::<R>::new(excl.clone());
+    interp.prop = prop.to_string();
+    interp.mute = mute;
     let mut fail: Option<Fail> = None;
     for op in ops {
         let r = catch_unwind(AssertUnwindSafe(|| interp.apply(op)));
@@ -113,32 +121,46 @@ pub fn run_case<R: Reg>(ops: &[Op], prop: &str, excl: &Exclusions, slot: usize) 
             }
         }
     }
-    let (stats, fail) = if let Some(f) = fail {
+    let muted_foreign = interp.foreign.first().cloned();
+    let had_foreign = muted_foreign.is_some();
+    let (stats, fail, own) = if let Some(f) = fail {
         // The state may be corrupt: do not run destructors of the worlds.
+        let own = interp.owns(&f);
         let stats = interp.stats.clone();
         std::mem::forget(interp);
-        (stats, Some(f))
+        (stats, Some(f), own)
+    } else if had_foreign {
+        // Another property's observer fired earlier: the final drop checks are that property's too.
+        let stats = interp.stats.clone();
+        std::mem::forget(interp);
+        (stats, None, false)
     } else {
+        let prop_owned = interp.prop.clone();
+        let clones = interp.stats.clones;
+        let deser = interp.stats.deser_replaced;
         let r = catch_unwind(AssertUnwindSafe(|| interp.finish()));
+        let owns_final = |f: &Fail| {
+            f.props.contains(&prop_owned.as_str()) || ((prop_owned == "C10" && clones > 0) || (prop_owned == "C06" && deser > 0))
+        };
         match r {
-            Ok((stats, Ok(()))) => (stats, None),
-            Ok((stats, Err(f))) => (stats, Some(f)),
-            Err(_) => (CaseStats::default(), Some(Fail { props: &["C04", "C05"], oracle: "panic-in-drop", msg: "panic while dropping the worlds".into(), step: ops.len() + 1 })),
+            Ok((stats, Ok(()))) => (stats, None, false),
+            Ok((stats, Err(f))) => {
+                let own = owns_final(&f);
+                (stats, Some(f), own)
+            }
+            Err(_) => {
+                let f = Fail { props: &["C04", "C05"], oracle: "panic-in-drop", msg: "panic while dropping the worlds".into(), step: ops.len() + 1 };
+                let own = owns_final(&f);
+                (CaseStats::default(), Some(f), own)
+            }
         }
     };
     set_quiet(false);
     talloc::track_set(false);
-    // C10 and C06 promise that a cloned / deserialized world "keeps satisfying every other
-    // property": in their checks a failure of those oracles after a clone / after the deserialized
-    // world took over counts as their own.
-    const OTHERS: [&str; 7] = ["C01", "C02", "C03", "C04", "C05", "C13", "C15"];
-    let inherited = |f: &Fail| {
-        f.props.iter().any(|p| OTHERS.contains(p)) && ((prop == "C10" && stats.clones > 0) || (prop == "C06" && stats.deser_replaced > 0))
-    };
     match fail {
-        Some(f) if f.props.contains(&prop) || inherited(&f) => CaseOutcome { stats, fail: Some(f), foreign: None },
-        Some(f) => CaseOutcome { stats, fail: None, foreign: Some(f) },
-        None => CaseOutcome { stats, fail: None, foreign: None },
+        Some(f) if own => CaseOutcome { stats, fail: Some(f), foreign: muted_foreign },
+        Some(f) => CaseOutcome { stats, fail: None, foreign: Some(muted_foreign.unwrap_or(f)) },
+        None => CaseOutcome { stats, fail: None, foreign: muted_foreign },
     }
 }
 
@@ -242,7 +264,10 @@ pub fn run<R: Reg>(cfg: &Config) -> Report {
                         if stop.load(Ordering::Relaxed) && !failed {
                             return Ok(());
                         }
-                        let out = run_case::<R>(&ops, &cfg.prop, &cfg.excl, wi);
+                        let text = serde_json::to_string(&ReplayCase { property: cfg.prop.clone(), engine: "engine".into(), registry: R::NAME.into(), pool_digest: cfg.pool_digest.clone(), seed: cfg.seed, case: ops.clone(), failure: "fatal signal while this case was running".into(), oracle: "crash".into() }).unwrap_or_default();
+                        crate::crash::announce(wi, &text);
+                        let out = run_case_opts::<R>(&ops, &cfg.prop, &cfg.excl, wi, cfg.mute);
+                        crate::crash::clear(wi);
                         if !failed {
                             local.evaluations += 1;
                             local.ops += out.stats.ops_run as u64;
@@ -274,7 +299,7 @@ pub fn run<R: Reg>(cfg: &Config) -> Report {
                     if let Err(TestError::Fail(reason, ops)) = result {
                         stop.store(true, Ordering::Relaxed);
                         // re-run the shrunk case once to get its own message
-                        let out = run_case::<R>(&ops, &cfg.prop, &cfg.excl, wi);
+                        let out = run_case_opts::<R>(&ops, &cfg.prop, &cfg.excl, wi, cfg.mute);
                         let (msg, oracle) = match out.fail {
                             Some(f) => (format!("step {}: {}", f.step, f.msg), f.oracle.to_string()),
                             None => (reason.to_string(), last_fail.map(|f| f.oracle.to_string()).unwrap_or_default()),
